@@ -239,7 +239,17 @@ func genLitProg(r *rand.Rand, n int) *LitProg {
 			fmt.Fprintf(&mainBody, "\temit(%d, *(&[]byte{%s}))\n", i, goByteElems(data, r))
 		case "ptrarray":
 			lc.Pos = "arg"
-			fmt.Fprintf(&mainBody, "\t{\n\t\tp := &[%d]byte{%s}\n\t\temit(%d, p[:])\n\t}\n", ln, goByteElems(data, r), i)
+			// sometimes the array is longer than its element list: the tail must stay zero
+			extra := 0
+			if r.Intn(2) == 0 {
+				extra = 1 + r.Intn(4)
+			}
+			lc.Data = append(append([]byte{}, data...), make([]byte, extra)...)
+			touch := ""
+			if ln+extra > 0 {
+				touch = "\t\tp[0]++ // the array must be writable and private\n"
+			}
+			fmt.Fprintf(&mainBody, "\t{\n\t\tp := &[%d]byte{%s}\n\t\temit(%d, p[:])\n%s\t}\n", ln+extra, goByteElems(data, r), i, touch)
 		}
 		lp.Cases = append(lp.Cases, lc)
 	}
